@@ -5,6 +5,7 @@ import (
 	"encoding/json"
 	"fmt"
 	"os"
+	"strings"
 	"testing"
 	"testing/synctest"
 	"time"
@@ -34,6 +35,43 @@ type c02Plan struct {
 	Deviant int   `json:"deviant"`  // -1: honest ceremony; else the participant whose key announcement carries another polynomial
 	DevHold bool  `json:"dev_hold"` // the deviant's operator answers the key step only when nothing else can happen (its announcement comes last)
 	DevMode int   `json:"dev_mode"` // 0: same constant term, other higher coefficient; 1: other constant term too; 2: one coefficient fewer
+	// Fault: a transient storage fault on one airgapped machine: while it processes its operation of the given step,
+	// one entry of its database (the Key-th in key order) is unreadable; afterwards the entry is back.
+	Fault *c02Fault `json:"fault,omitempty"`
+}
+
+type c02Fault struct {
+	Machine int    `json:"machine"`
+	Step    string `json:"step"`
+	Key     int    `json:"key"`
+}
+
+var c02Steps = []string{"state_dkg_commits_await_confirmations", "state_dkg_deals_await_confirmations", "state_dkg_responses_await_confirmations", "state_dkg_master_key_await_confirmations"}
+
+// withUnreadableEntry runs f while the k-th entry (in key order) of machine m's database is missing, then puts it back
+// unless f wrote the entry itself. It returns the entry's key.
+func withUnreadableEntry(m *world.Machine, k int, f func()) string {
+	db := m.M.VerifDB()
+	var keys [][]byte
+	it := db.NewIterator(nil, nil)
+	for it.Next() {
+		keys = append(keys, append([]byte{}, it.Key()...))
+	}
+	it.Release()
+	if len(keys) == 0 {
+		f()
+		return ""
+	}
+	key := keys[k%len(keys)]
+	val, _ := db.Get(key, nil)
+	_ = db.Delete(key, nil)
+	defer func() {
+		if ok, _ := db.Has(key, nil); !ok {
+			_ = db.Put(key, val, nil)
+		}
+	}()
+	f()
+	return string(key)
 }
 
 func c02Gen(rt *rapid.T) c02Plan {
@@ -44,6 +82,8 @@ func c02Gen(rt *rapid.T) c02Plan {
 		p.Deviant = rapid.IntRange(0, p.N-1).Draw(rt, "who")
 		p.DevMode = rapid.IntRange(0, 2).Draw(rt, "mode")
 		p.DevHold = rapid.Bool().Draw(rt, "hold")
+	} else if rapid.Bool().Draw(rt, "fault") {
+		p.Fault = &c02Fault{Machine: rapid.IntRange(0, p.N-1).Draw(rt, "faultMachine"), Step: rapid.SampledFrom(c02Steps).Draw(rt, "faultStep"), Key: rapid.IntRange(0, 40).Draw(rt, "faultKey")}
 	}
 	return p
 }
@@ -105,6 +145,8 @@ type c02Obs struct {
 	Round     string
 	DevPosted bool
 	DevLast   bool // the deviant announcement was the last key announcement on the board
+	FaultKey  string
+	FaultSeen string // what the operator saw from the machine during the fault
 	Err       error
 	Viol      *viol
 }
@@ -124,7 +166,25 @@ func c02Execute(p c02Plan, root string) (obs c02Obs) {
 	obs.Round = round
 	var genuinePoly []byte
 	_ = genuinePoly
+	faultDone := false
 	answer := func(i int, op *types.Operation) error {
+		if f := p.Fault; f != nil && !faultDone && f.Machine == i && string(op.Type) == f.Step {
+			faultDone = true
+			var err error
+			var res *types.Operation
+			obs.FaultKey = withUnreadableEntry(w.Machines[i], f.Key, func() { res, err = w.Answer(i, op) })
+			switch {
+			case err != nil && res == nil:
+				// the machine failed as a whole and produced no result file: nothing reaches the node, the operator tries again
+				obs.FaultSeen = "no result file: " + err.Error()
+				return nil
+			case err != nil:
+				return err
+			default:
+				obs.FaultSeen = "result " + string(res.Event)
+				return nil
+			}
+		}
 		if p.Deviant == i && string(op.Type) == "state_dkg_master_key_await_confirmations" {
 			file, err := w.Nodes[i].OperationFile(op.ID)
 			if err != nil {
@@ -210,12 +270,17 @@ func c02Execute(p c02Plan, root string) (obs c02Obs) {
 			return
 		}
 	}
-	for r := 0; r < 600; r++ {
+	for r := 0; r < 5000; r++ {
 		acts := enabled()
 		if len(acts) == 0 {
 			break
 		}
-		if err := do(acts[0]); err != nil {
+		// fair completion: deliver everything that is waiting to a node at once (large n produce n*(n-1) deals)
+		a := acts[0]
+		if a.kind == "poll" && len(acts) > 1 && acts[1].kind == "poll" && acts[1].i == a.i && acts[1].k < 0 {
+			a = acts[1]
+		}
+		if err := do(a); err != nil {
 			// in a cancelled round machines may refuse later steps; that ends the ceremony
 			break
 		}
@@ -373,6 +438,21 @@ func c02Run(t *testing.T, st *vstat.Stats, p c02Plan) *viol {
 		anyReady = anyReady || r
 	}
 	st.Class(fmt.Sprintf("n=%d,t=%d", p.N, p.T))
+	if p.Fault != nil && p.Deviant < 0 {
+		if obs.FaultKey == "" {
+			st.Class("storage-fault:not-reached")
+			return nil
+		}
+		outcome := "no-node-ready"
+		if anyReady {
+			outcome = "ready-and-consistent"
+		}
+		st.Class("storage-fault:" + outcome)
+		st.Class("storage-fault-step:" + strings.TrimSuffix(strings.TrimPrefix(p.Fault.Step, "state_dkg_"), "_await_confirmations"))
+		st.NonTrivial(fmt.Sprintf("f/%d/%d/%d/%s/%q/%v", p.N, p.T, p.Fault.Machine, p.Fault.Step, obs.FaultKey, p.Tape))
+		st.SampleEvery(10, map[string]any{"n": p.N, "t": p.T, "fault_machine": p.Fault.Machine, "fault_step": p.Fault.Step, "unreadable_entry": fmt.Sprintf("%q", clip(obs.FaultKey, 40)), "operator_saw": clip(obs.FaultSeen, 120), "final_states": obs.States})
+		return nil
+	}
 	if p.Deviant < 0 {
 		if !anyReady {
 			return violf("harness", "honest ceremony did not become signing-ready: %v", obs.States)
@@ -405,4 +485,38 @@ func TestC02(t *testing.T) {
 	st := vstat.New("C02")
 	defer finish(t, st)
 	rapidProp(t, st, "ceremonies", perShard(pick(160, 4000)), 1, c02Gen, func(p c02Plan) *viol { return c02Run(t, st, p) })
+
+	// every (step, database entry) storage fault on one machine, small configurations
+	t.Run("storage-faults", func(t *testing.T) {
+		if replaying() {
+			var p c02Plan
+			if replayFor(t, "storage-faults", &p) {
+				st.Eval()
+				report(t, st, "storage-faults", c02Run(t, st, p), p)
+			}
+			return
+		}
+		type cfg struct{ n, thr, m int }
+		cfgs := []cfg{{2, 2, 1}}
+		if thorough() {
+			cfgs = []cfg{{2, 2, 0}, {2, 2, 1}, {3, 2, 0}, {3, 2, 2}, {3, 3, 1}, {4, 3, 2}}
+		}
+		si, sn := shard()
+		job := 0
+		for _, c := range cfgs {
+			for _, step := range c02Steps {
+				for key := 0; key < 6; key++ {
+					for _, tape := range [][]int{nil, {3, 1, 4, 1, 5, 9, 2, 6, 5, 3, 5, 8, 9, 7, 9}} {
+						job++
+						if job%sn != si {
+							continue
+						}
+						p := c02Plan{N: c.n, T: c.thr, Deviant: -1, Tape: tape, Fault: &c02Fault{Machine: c.m, Step: step, Key: key}}
+						st.Eval()
+						report(t, st, "storage-faults", c02Run(t, st, p), p)
+					}
+				}
+			}
+		}
+	})
 }
